@@ -59,7 +59,7 @@ int main(void)
 	unsigned char hdn[64];
 	unsigned char n1[3], e1[2], n2[3], e2[2], q1[5], q2[5];
 #ifdef NATIVE_REPLAY
-	memset(&xc, 0, sizeof xc); memset(&ta, 0, sizeof ta);
+	NATIVE_FILL(&xc, sizeof xc); NATIVE_FILL(&ta, sizeof ta);
 #endif
 	xc.dn_hash_impl = &dnh;
 	ND_BYTES(hdn, DHL);
